@@ -5,6 +5,7 @@ geometry builders (uxarray/grid/geometry.py) and of UxDataArray.to_geodataframe/
 
   *_compared   keys of the cache dict compared with the call's arguments to force `override`
   *_stored     keys written under `if cache:` together with the argument they are written from
+  *_stored_uncond  argument keys written at the top level of the method, whatever the cache flag
   *_uncond     side-table keys written by the builder regardless of the cache flag
   *_read       side-table keys UxDataArray.* reads back from the grid's cache dict
   *_returns    how the cached / fresh object is handed out: 0 = the object itself, 1 = copy.deepcopy
@@ -119,16 +120,28 @@ def analyse_method(fn, cache, objkey):
                 raise Broken("%s: return shape %s" % (fn.name, ast.dump(first)[:80]))
     if compared is None or stored is None:
         raise Broken("%s: comparison or store block not found" % fn.name)
+    # writes of argument keys at the top level of the method body (regardless of the cache flag)
+    uncond = []
+    for node in fn.body:
+        if isinstance(node, ast.Assign):
+            for t in node.targets:
+                k = is_self_cache(t, cache)
+                if k is None:
+                    continue
+                if k in ("periodic_elements", "projection", "engine") and isinstance(node.value, ast.Name) and node.value.id == k:
+                    uncond.append(k)
+                else:
+                    raise Broken("%s: unconditional cache write %s" % (fn.name, k))
     # any other write into the cache dict inside the method must be one of the recognised ones
     for node in ast.walk(fn):
         if isinstance(node, ast.Assign):
             for t in node.targets:
                 k = is_self_cache(t, cache)
-                if k is not None and k != objkey and k not in stored and k not in stored_tables:
+                if k is not None and k != objkey and k not in stored and k not in stored_tables and k not in uncond:
                     raise Broken("%s: unexpected cache write %s" % (fn.name, k))
     if len(returns) != 1:
         raise Broken("%s: mixed return styles %s" % (fn.name, returns))
-    return compared, stored, stored_tables, returns.pop()
+    return compared, stored, stored_tables, returns.pop(), uncond
 
 
 def builder_writes(tree):
@@ -207,9 +220,10 @@ def main():
         rd = da_reads(da)
         for meth, (cache, objkey, short) in METHODS.items():
             fn = find_func(gtree, meth, cls="Grid")
-            compared, stored, tables, ret = analyse_method(fn, cache, objkey)
+            compared, stored, tables, ret, uncond = analyse_method(fn, cache, objkey)
             lines.append("Definition c15_%s_compared : list Z := %s." % (short, zl(compared)))
             lines.append("Definition c15_%s_stored : list Z := %s." % (short, zl(stored)))
+            lines.append("Definition c15_%s_stored_uncond : list Z := %s." % (short, zl(uncond)))
             lines.append("Definition c15_%s_stored_tables : list Z := %s." % (short, zl(tables)))
             lines.append("Definition c15_%s_uncond_tables : list Z := %s." % (short, zl(bw[short])))
             lines.append("Definition c15_%s_read_tables : list Z := %s." % (short, zl(rd.get(short, []))))
